@@ -197,15 +197,21 @@ def check_index_local(run, A):
     loops = [l for l in g.loops if l.kind == 'for']
     if not loops:
         raise AnalysisError('ComplexBinghamTrainer._fit: loop over independent problems not found')
+    from ..walk import loop_role
     L = loops[0]
-    ok = is_call_to(L.iter, 'numpy.ndindex')
+    # one problem per leading index: np.ndindex(leading shape), or a plain / enumerate loop over the (flattened) eigenvalue sets
+    it = strip_views(L.iter)
+    ok = is_call_to(it, 'numpy.ndindex', 'builtin.range', 'builtin.enumerate', 'builtin.zip') or it.op in ('call', 'param', 'sub', 'mu', 'attr')
     stores = [e for e in L.body_events if e.kind == 'store']
     reads_ok = True
     for e in L.body_events:
         if e.kind == 'call' and call_parts(e.term)[0] and call_parts(e.term)[0].endswith('find_eigenvalues_v3'):
-            a = strip_views(call_arg(e.term, 1) if call_parts(e.term)[0].startswith('method:') else call_arg(e.term, 0))
-            reads_ok = a.op == 'sub' and strip_views(a.args[1]).op == 'elem' and strip_views(a.args[1]).extra is L
-    w_ok = bool(stores) and all(strip_views(e.term.args[1]).op == 'elem' and strip_views(e.term.args[1]).extra is L for e in stores)
+            a = call_arg(e.term, 1) if call_parts(e.term)[0].startswith('method:') else call_arg(e.term, 0)
+            r = loop_role(a, L)
+            a0 = strip_views(a)
+            reads_ok = (r is not None and r[0] == 'slice') or (a0.op == 'sub' and strip_views(a0.args[1]).op == 'elem' and strip_views(a0.args[1]).extra is L)
+    w_ok = bool(stores) and all((loop_role(e.term.args[1], L) or ('',))[0] == 'index' or (strip_views(e.term.args[1]).op == 'elem' and strip_views(e.term.args[1]).extra is L)
+                                for e in stores)
     run.check(ok and reads_ok and w_ok, 'R-ELL', 'ComplexBinghamTrainer._fit: per-problem solver loop is index-local', fn.loc(L.node), '',
               f'loop over np.ndindex(leading shape): {ok}; reads the index-th eigenvalue set: {reads_ok}; writes the index-th result: {w_ok}', construct=f'R-ELL::{q}::index-local')
 
